@@ -242,6 +242,11 @@ def s4(ctx):
                     continue      # no shards
                 ok = False
                 continue
+            # a loop over the collected per-shard results that runs zero times means "no shards"
+            if any(e.kind == 'FOR' and e.d['it'] == 0 and any(x.k == 'ret' and x.a[0] in {c.seq for c in calls}
+                                                              for x in deep_values(e.d['iter'], p.trace))
+                   for e in p.trace):
+                continue
             n += 1
             rets = {('ret', c.seq) for c in calls}
             have = {(x.k, x.a[0]) for x in deep_values(p.outcome[1], p.trace) if x.k == 'ret'}
